@@ -52,9 +52,13 @@ class HistoryProp(Prop):
 
     def decide(self, case):
         ops = case['ops']
-        n, robs, iobs, failure, ref = H.run_history(ops, self.ref_steps, skip_undecided=self.skip_undecided, track_fresh=self.track_fresh)
+        lockstep = bool(case.get('lockstep_threads'))
+        n, robs, iobs, failure, ref = H.run_history(ops, self.ref_steps, skip_undecided=self.skip_undecided, track_fresh=self.track_fresh,
+                                                    impl_world=H.ThreadedImplWorld if lockstep else None)
         if failure is not None:
             kind, i, op, r, o = failure
+            if lockstep:
+                kind = 'lockstep-threads:' + kind
             return FAIL(kind, {'history': [H.show_op(x) for x in ops[:i + 1]], 'failing_op': H.show_op(op),
                                'expected': H.show_obs(r), 'observed': H.show_obs(o) if not isinstance(o, str) or True else o})
         if n < self.min_decided:
@@ -65,4 +69,6 @@ class HistoryProp(Prop):
         nt, classes = self.classify(case, ops[:n], robs, ref)
         if n < len(ops):
             classes = list(classes) + ['reference-stopped-early(prefix compared)']
+        if lockstep:
+            classes = list(classes) + ['lockstep-threads(one thread per engine)']
         return OK(nt, sorted(set(classes)))
